@@ -503,6 +503,42 @@ theorem incremental_upload_frame (c : Cfg) (ign : List String) (old new : Tree) 
         else if q ∈ (rmL ign d).map (·.path) then none else look remote q :=
   uploadInc_look c ign old new d remote hrob hbad hnew hd hroot hm hig
 
+/-- **Copied paths reach the remote.**  (Only git trees report copies.)  Under the
+hypotheses of `incremental_upload_reaches_tree_partial`, every copied path that
+is not ignored shows the new tree's entry after the upload - `upload_tree`
+treats `changes.added + changes.copied` alike. -/
+theorem copied_paths_reach_remote (c : Cfg) (ign : List String) (old new : Tree) (d : Delta)
+    (remote : Node) (hrob : c.robustSymlinks = true) (hbad : c.badLinks = []) (hnew : treeWF new = true)
+    (hd : deltaOK ign old new d = true) (hroot : look remote [] = some .dir)
+    (hm : Matches ign old remote) (hig : NoIgnoredBelow ign d remote) :
+    ∃ r', uploadInc c ign new d remote = (r', none) ∧
+      ∀ p ∈ d.copied, ignored ign p = false → look r' p = new.look p := by
+  obtain ⟨r', h1, h2⟩ := uploadInc_look c ign old new d remote hrob hbad hnew hd hroot hm hig
+  refine ⟨r', h1, ?_⟩
+  intro p hp hi
+  have : p ∈ adL ign d := by
+    unfold adL
+    exact List.mem_filter.mpr ⟨List.mem_append_right _ hp, by simp [hi]⟩
+  rw [h2 p]
+  simp [this]
+
+/-- **Dropping `copied` loses exactly those paths.**  `a` is moved to `b` and its
+text duplicated at `d/e` (git: renamed a -> b, copied a -> d/e, the new directory
+`d` added): with the delta as reported the remote equals the tree; with the
+copied list dropped (iterating `changes.added` only) the upload still succeeds,
+`d/e` - and nothing else - is missing, and the remote no longer equals the tree. -/
+theorem copied_dropped_witness :
+    let c : Cfg := { renames := .childrenFirst, robustSymlinks := true, kindChangeAtNew := true }
+    let new : Tree := [⟨["b"], .file, "x", false, ""⟩, ⟨["d"], .dir, "", false, ""⟩, ⟨["k"], .file, "k", false, ""⟩,
+      ⟨["d", "e"], .file, "x", false, ""⟩]
+    let remote : Node := .dir [("a", .file "x" false), ("k", .file "k" false)]
+    let d : Delta := { renamed := [⟨["a"], ["b"], false⟩], added := [["d"]], copied := [["d", "e"]] }
+    let r := uploadInc c [] new d remote
+    let r' := uploadInc c [] new { d with copied := [] } remote
+    r.2 = none ∧ look r.1 ["d", "e"] = some (.file "x" false) ∧ look r.1 ["b"] = some (.file "x" false) ∧ look r.1 ["a"] = none ∧
+    r'.2 = none ∧ look r'.1 ["d", "e"] = none ∧ look r'.1 ["b"] = look r.1 ["b"] ∧ look r'.1 ["d"] = look r.1 ["d"] ∧
+    look r'.1 ["k"] = look r.1 ["k"] ∧ look r'.1 ["a"] = none := by decide
+
 /-- the successor of `exTree1`: the subtree `a/b` and `k` removed (deferred
 directory deletion), `f` modified, `a/l` re-targeted, `a/x` turned into a file
 (its child removed), a new directory with a file and a nested symlink added, `k`
